@@ -317,8 +317,11 @@ class Server:
                 if not self._pipeline_notfull.wait(timeout * 0.99):
                     raise ServerBacklogFull(len(pipeline), perf_counter() - t0)
 
-            self._input_buffer.put((uid, x))
+            # Record the request in the ledger before publishing it: the gather thread
+            # pops the ledger without holding this lock, so a fast worker's result
+            # could otherwise arrive before the entry exists and be dropped.
             pipeline[uid] = fut
+            self._input_buffer.put((uid, x))
             # See doc of counterpart methods in `AsyncServer`.
 
         fut.data['t1'] = perf_counter()
